@@ -268,22 +268,50 @@ def check_stmt(name, tier, acc, only=None):
     getters = [(repr(p)[2:], p._dsl.Type.nbits, eval(f"lambda s: int(s.{repr(p)[2:]})")) for p in outs]
     state = None
     n = 0
+    sigs = sorted(top.get_all_object_filter(lambda x: x.is_signal()), key=repr)
+    read_all = eval("lambda s: [" + ", ".join(f"repr(s.{repr(p)[2:]})" for p in sigs) + "]")
+    fp_blocks = [b for b in top._dag.final_upblks if b not in top.get_all_update_ff()]
     for step, vec in enumerate(seqs[extra["seq"]]):
       top.a @= vec["a"]; top.b @= vec["b"]; top.sel @= vec["sel"]; top.en @= vec["en"]; top.reset @= vec["reset"]
+      # after ONE combinational evaluation the state is a fixed point of every update block (sim_tick evaluates the blocks twice
+      # with the inputs held, which hides a value that is one evaluation late); combinational designs also have their outputs now
+      try:
+        top.sim_eval_combinational()
+      except Exception as ex:
+        acc.violation(f"stmt:{what}:eval-raised:{name}", dict(base, **extra), "no exception", repr(ex)[:200], name)
+        return n
+      before = read_all(top)
+      for blk in fp_blocks: blk()
+      after = read_all(top)
+      if after != before:
+        k = next(i for i in range(len(sigs)) if before[i] != after[i])
+        acc.violation(f"stmt:{what}:not-a-fixed-point:{name}", dict(base, step=step, **extra), f"{sigs[k]!r} = {after[k]} (value after re-running the blocks)", before[k],
+                      f"{name} under {what} at step {step}: re-running the update blocks after sim_eval_combinational changed signals")
+        return n
+      acc.count("fixpoint_checks")
       try:
         top.sim_tick()
       except Exception as ex:
-        acc.violation(f"stmt:{what}:tick-raised", dict(base, **extra), "no exception", repr(ex)[:200], name)
+        acc.violation(f"stmt:{what}:tick-raised:{name}", dict(base, **extra), "no exception", repr(ex)[:200], name)
         return n
       state, want = ref(state, **vec)
       n += 1
       for nm, w, g in getters:
         if g(top) != want[nm] & ((1 << w) - 1):
-          acc.violation(f"stmt:{what}:output-differs", dict(base, step=step, **extra), f"{nm} = {want[nm] & ((1 << w) - 1)}", g(top), f"{name} under {what} at step {step}")
+          acc.violation(f"stmt:{what}:output-differs:{name}", dict(base, step=step, **extra), f"{nm} = {want[nm] & ((1 << w) - 1)}", g(top), f"{name} under {what} at step {step}")
           return n
     return n
 
   nsteps = 0
+  if name in stmtfam.MAY_REJECT:
+    import pymtl3.dsl.errors as dsl_errors
+    try:
+      t = cls(); t.elaborate()
+    except Exception as ex:
+      if type(ex).__module__ != dsl_errors.__name__: raise
+      acc.count("stmt_rejected_by_dsl"); acc.add("stmt_rejected", f"{name}:{type(ex).__name__}")
+      acc.count("stmt_designs")
+      return 0
   for si in range(len(seqs)):
     for group in ("dynamic", "heuristic", "mamba", "unroll"):
       if only and only != (group, si): continue
@@ -407,6 +435,7 @@ def finish(acc, tier):
     linear_extensions=int(acc.n["linear_extensions"]), ext_cap=EXT_CAP[tier], ext_cap_hits=int(acc.n["ext_cap_hits"]),
     order_sensitive_designs=acc.size("order_sensitive"),
     seam_designs=int(acc.n["seam_designs"]), stmt_family_designs=int(acc.n["stmt_designs"]), stmt_designs_with_several_schedules=acc.size("stmt_multi_schedule"),
+    stmt_fixpoint_checks=int(acc.n["fixpoint_checks"]), stmt_designs_refused_by_the_dsl=sorted(acc.sets.get("stmt_rejected", ())),
     notes=acc.notes[:10],
     bounds=dict(seq_len=SEQ_LEN[tier], pass_groups=list(GROUPS)),
   )
